@@ -2228,6 +2228,50 @@ func contains(xs []string, x string) bool {
 	return false
 }
 
+// bufferEvents lists, in source order, what handleConfig (helpers of the package inlined) does with the pooled
+// response buffer: "<fn>:Get", "<fn>:Put", "<fn>:defer:Put" for bufferPool.Get/Put and "<fn>:Write" for w.Write,
+// where <fn> is the function whose body contains the statement - a deferred Put runs when THAT function returns.
+func bufferEvents(fd *ast.FuncDecl, helpers map[string]*ast.FuncDecl) []string {
+	if fd == nil || fd.Body == nil {
+		return nil
+	}
+	var out []string
+	stack := []string{fd.Name.Name}
+	var walk func(n ast.Node, prefix string)
+	walk = func(n ast.Node, prefix string) {
+		ast.Inspect(n, func(x ast.Node) bool {
+			switch t := x.(type) {
+			case *ast.DeferStmt:
+				walk(t.Call, "defer:")
+				return false
+			case *ast.CallExpr:
+				cur := stack[len(stack)-1]
+				if se, ok := t.Fun.(*ast.SelectorExpr); ok {
+					switch {
+					case exprText(se.X) == "bufferPool" && (se.Sel.Name == "Get" || se.Sel.Name == "Put"):
+						out = append(out, cur+":"+prefix+se.Sel.Name)
+					case exprText(se.X) == "w" && se.Sel.Name == "Write":
+						out = append(out, cur+":"+prefix+"Write")
+					}
+				} else if id, ok := t.Fun.(*ast.Ident); ok {
+					if callee := helpers[id.Name]; callee != nil && callee.Body != nil && len(stack) < 4 && !contains(stack, id.Name) {
+						for _, a := range t.Args {
+							walk(a, prefix)
+						}
+						stack = append(stack, id.Name)
+						walk(callee.Body, "")
+						stack = stack[:len(stack)-1]
+						return false
+					}
+				}
+			}
+			return true
+		})
+	}
+	walk(fd.Body, "")
+	return out
+}
+
 func genConfigLocks() string {
 	_, caddyGo := parseFile("caddy.go")
 	_, adminGo := parseFile("admin.go")
@@ -2257,5 +2301,16 @@ func genConfigLocks() string {
 			row(adminGo, "handleConfigID"), row(adminGo, "unsyncedConfigAccess")}, ",\n") + "\n]\n\n" +
 		"/-- admin.go newAdminHandler: every addRoute / addRouteWithMetrics call as `pattern|handler|nesting`\n" +
 		"    (nesting 0 = not inside any if/for/switch: registered for the local and the remote endpoint alike) -/\n" +
-		"def adminRoutes : List String := " + leanStrList(adminRoutes(findFunc(adminGo, "AdminConfig", "newAdminHandler"))) + "\n" + footer
+		"def adminRoutes : List String := " + leanStrList(adminRoutes(findFunc(adminGo, "AdminConfig", "newAdminHandler"))) + "\n\n" +
+		"/-- admin.go handleConfig (package-level helpers inlined): the pooled response buffer, in source order -\n" +
+		"    (<fn>, Get | Put | defer:Put) for bufferPool.Get/Put and (<fn>, Write) for w.Write, <fn> = the function whose body\n" +
+		"    contains the statement (a deferred Put runs when that function returns) -/\n" +
+		"def responseBuffer : List (String × String) := [" + strings.Join(func() []string {
+		var rows []string
+		for _, e := range bufferEvents(findFunc(adminGo, "", "handleConfig"), helpers) {
+			fn, ev, _ := strings.Cut(e, ":")
+			rows = append(rows, "("+leanStr(fn)+", "+leanStr(ev)+")")
+		}
+		return rows
+	}(), ", ") + "]\n" + footer
 }
